@@ -1,5 +1,6 @@
 import Rare.Proofs.C14Log
 import Rare.Proofs.C14Legend
+import Rare.Proofs.C14Reduce
 import Rare.Gen.C14
 /-!
 # C14 – Renderers never crash and draw quantities proportionally within bounds
@@ -135,6 +136,31 @@ theorem legend_code_matches_source :
       "for idx, item := range s.Scaler.ScaleKeys(6, s.minVal, s.maxVal) { if idx > 0 { sb.WriteString(\" \") } termunicode.HeatWrite(&sb, s.Scaler.Scale(item, s.minVal, s.maxVal)) sb.WriteString(\" \") sb.WriteString(s.Formatter(item, min, max)) }",
       "s.term.WriteForLine(0, sb.String())"] := by
   refine ⟨by decide +kernel, by decide +kernel, by decide +kernel, by decide +kernel, by decide +kernel, by decide +kernel⟩
+
+/-- the code of the reduce table's rows is the modelled one (printed statements, regenerated on every run): the render
+callback of `reduceFunction` is the row loop and the two footers; the row loop ALLOCATES `rowBuf` for every group
+(`make([]string, aggr.ColCount())`: all cells empty), overwrites at most `GroupColCount` cells with the parts of the key,
+copies the data behind them and hands the buffer to `WriteRow` (`Reduce.rowCells`, `reduce_fresh_buffer`); nothing is
+declared between `NewTable` and the aggregation loop – no buffer outlives a row (`reduce_shared_buffer_counterexample` is
+what a hoisted one would show); `TableWriter.WriteRow` drops rows beyond `maxRows`, stores the cells it was given,
+widens the columns by `color.StrLen` and re-draws every active row when one grew (`TableWriter.writeRow` of the model),
+`writeRow` pads every displayed cell to its column by `color.StrLen` plus one blank -/
+theorem reduce_code_matches_source :
+    Gen.C14.reduceRenderBody = ["for i, group := range aggr.Groups(sorter) { rowBuf := make([]string, aggr.ColCount()) data := aggr.Data(group) for idx, item := range group.Parts() { if idx >= aggr.GroupColCount() { break } rowBuf[idx] = color.Wrap(color.BrightWhite, item) } copy(rowBuf[aggr.GroupColCount():], data) table.WriteRow(i+1, rowBuf...) }",
+      "table.WriteFooter(0, helpers.FWriteExtractorSummary(extractor, aggr.ParseErrors(), fmt.Sprintf(\"(R: %d; C: %d)\", aggr.DataCount(), aggr.ColCount())))",
+      "table.WriteFooter(1, batcher.StatusString())"] ∧
+    Gen.C14.reduceRowLoopBody = ["rowBuf := make([]string, aggr.ColCount())", "data := aggr.Data(group)",
+      "for idx, item := range group.Parts() { if idx >= aggr.GroupColCount() { break } rowBuf[idx] = color.Wrap(color.BrightWhite, item) }",
+      "copy(rowBuf[aggr.GroupColCount():], data)", "table.WriteRow(i+1, rowBuf...)"] ∧
+    Gen.C14.reduceHoistedDecls = [] ∧
+    Gen.C14.tableWriteRowBody = ["if rowNum >= s.maxRows { return }", "if rowNum >= s.activeRows { s.activeRows = rowNum + 1 }",
+      "s.rows[rowNum] = cols", "needFullUpdate := false",
+      "for i := 0; i < len(cols) && i < s.maxCols; i++ { runeLen := color.StrLen(cols[i]) if runeLen > s.colWidth[i] { s.colWidth[i] = runeLen needFullUpdate = true } }",
+      "if needFullUpdate { for i := 0; i < s.activeRows; i++ { s.writeRow(i, s.rows[i]...) } } else { s.writeRow(rowNum, cols...) }"] ∧
+    Gen.C14.tableWriteRowInnerBody = ["var sb strings.Builder",
+      "for i := 0; i < len(cols) && i < s.maxCols; i++ { runeLen := color.StrLen(cols[i]) sb.WriteString(cols[i]) for j := 0; j < s.colWidth[i]-runeLen; j++ { sb.WriteRune(' ') } sb.WriteRune(' ') }",
+      "s.term.WriteForLine(rowNum, sb.String())"] := by
+  refine ⟨by decide +kernel, by decide +kernel, by decide +kernel, by decide +kernel, by decide +kernel⟩
 
 /-- the `--scale` names (`termscaler.ScalerByName`, compared with the real function on generated names by op `scname`): the six
 accepted spellings in any case – also `LİN` (Go lower-cases U+0130 to `i`) –, and nothing else: not a prefix, not a name
@@ -607,6 +633,43 @@ theorem reduce_render_ok (env : Env) (r : Reduce) (vt : VirtualTerm) (hinv : Tab
   exact ⟨_, h6 i g hg hlt, reduce_rowCells_length env r g.1 g.2,
     fun j part hj hp => reduce_rowCells_parts env r g.1 g.2 j part hj hp,
     fun j x hj hx => reduce_rowCells_data env r g.1 g.2 j x hj hx⟩
+
+/-- reduce table, "displayed numbers equal the aggregated numbers" for the GROUP LABEL of every row: after a render
+callback on ANY table state (so: in every frame, whatever earlier frames and earlier rows of this frame wrote) the group
+cells of row `i + 1` are the first `GroupColCount` parts of the key of group `i` itself and BLANK for every group column
+the key has no part for – in particular the row of the empty group value (no parts at all) carries an empty label
+wherever it stands (seeded change C14-reduce-rowbuf-hoisted: `rare reduce -g` with an empty group value under
+`--sort-reverse`, or written first in a second frame, showed the label of the row written before it) -/
+theorem reduce_row_shows_own_group (env : Env) (r : Reduce) (vt : VirtualTerm) (hinv : TableInv env r.table vt)
+    (groups : List (Bytes × List Bytes)) (f0 f1 : Bytes) :
+    ∃ r' vt', r.render env vt groups f0 f1 = .ok (r', vt') ∧
+      (∀ (i : Nat) (g : Bytes × List Bytes), groups[i]? = some g → ((i : Int) + 1 < r.table.maxRows) →
+        ∃ row, r'.table.rows[i + 1]? = some row ∧
+          row.take r.gnames.length = ((groupParts g.1).take r.gnames.length).map (wrap env cBrightWhite) ++
+            List.replicate (r.gnames.length - ((groupParts g.1).take r.gnames.length).length) [] ∧
+          (g.1 = [] → row.take r.gnames.length = List.replicate r.gnames.length [])) := by
+  obtain ⟨r', vt', h1, _, _, _, _, h6⟩ := reduce_render env r vt hinv groups f0 f1
+  refine ⟨r', vt', h1, ?_⟩
+  intro i g hg hlt
+  refine ⟨_, h6 i g hg hlt, rowCells_group_cells env r g.1 g.2, ?_⟩
+  intro he
+  rw [rowCells_group_cells, he]
+  simp [groupParts]
+
+/-- why the row loop allocates: one iteration of the loop on a FRESH buffer (`make([]string, ColCount)`, all cells
+empty) writes exactly the cells the model hands to `WriteRow` – every key, every data list (shorter, longer) -/
+theorem reduce_fresh_buffer (env : Env) (r : Reduce) (key : Bytes) (data : List Bytes) :
+    r.fillRow env (List.replicate (r.gnames.length + r.dnames.length) []) key data = r.rowCells env key data :=
+  fillRow_fresh env r key data
+
+/-- boundary (kernel-checked): with ONE buffer for all rows the same loop shows a foreign label.  Groups `alpha` (11) and
+the empty group (5) in this order (`--sort-reverse`): the second row reads `alpha 5`; per-row buffers give an empty label -/
+theorem reduce_shared_buffer_counterexample :
+    let r : Reduce := { table := ⟨10, 20, 0, List.replicate 10 0, List.replicate 20 []⟩, gnames := [ascii "grp"], dnames := [ascii "total"] }
+    let groups : List (Bytes × List Bytes) := [(ascii "alpha", [ascii "11"]), ([], [ascii "5"])]
+    Reduce.rowsShared ⟨false, true⟩ r (List.replicate 2 []) groups = [[ascii "alpha", ascii "11"], [ascii "alpha", ascii "5"]] ∧
+    groups.map (fun g => r.rowCells ⟨false, true⟩ g.1 g.2) = [[ascii "alpha", ascii "11"], [[], ascii "5"]] := by
+  decide +kernel
 
 /-! ## histogram and bar graph as whole renderers: every displayed row is drawn at the CURRENT scale
 
